@@ -88,6 +88,7 @@ void vh_key_free(vh_key_t *k);
 char *vh_key_jwk(const vh_key_t *k, int priv, const char *alg, const char *kid, const char *extra);
 /* load into libjwt under the *current* provider; returns item (owned by *set) */
 const jwk_item_t *vh_key_load(const vh_key_t *k, int priv, const char *alg, jwk_set_t **set);
+extern const char *vh_load_kid;
 
 /* ---- reference crypto (OpenSSL directly) ---------------------------------- */
 /* sign msg with key for alg; returns malloc'd raw JWS signature (ES: r||s), NULL on failure */
